@@ -14,7 +14,7 @@ func multiIssue(c *pxConfig) bool { return famOrder[c.Fam] >= 6 }
 
 func wrongResult(class string) bool { return class == "wrong-registers" || class == "wrong-memory" }
 
-const post = "addi t2, t0, 1\nsw t2, 128(zero)"
+const post = "addi s11, t0, 1\nsw s11, 128(zero)" // a register no template uses: final t0..t3 stay observable
 
 func lines(parts ...string) string {
 	var out []string
